@@ -97,6 +97,10 @@ def gen_c13(rng, profile):
     kn.update({"dialect_support": True, "p_dialect_support": 0.85, "cfg_dialect": False,
                "threads": False, "aborts": False, "codecs": False,
                "p_alias": 0.35})
+    if profile.get("batch") == "codec":
+        # bytes are a native type of MessagePack: "the same logical document"
+        # cannot be compared textually there, so the codec clause leaves them out
+        kn["bytes_fields"] = False
     if kn["lazy"] != "none" and rng.random() < 0.6:
         kn["lazy"] = "none"
     if rng.random() < 0.5:
@@ -411,7 +415,10 @@ def gen_c12(rng, profile):
             # a second discriminated position on the same holder, same settings,
             # other base: registries of two dispatchers must stay separate
             other = r.choice([c["name"] for c in hier if c["name"] != base])
-            hc["fields"].append({"n": "g", "t": ["opt", ["ann", ["cls", other], dict(d)]],
+            d2 = dict(d)
+            if d2.get("field") and r.random() < 0.5:
+                d2["tagger"] = r.choice([t_ for t_ in (None, "name", "list") if t_ != d.get("tagger")])
+            hc["fields"].append({"n": "g", "t": ["opt", ["ann", ["cls", other], d2]],
                                  "d": ["n"]})
         c = cfg()
         if c:
@@ -624,6 +631,55 @@ def _unwrap_result(t, v):
 
 
 def oracle_c12(ex, idx, op, out):
+    v = _oracle_c12_f(ex, idx, op, out)
+    if v is not None:
+        return v
+    return _oracle_c12_g(ex, idx, op, out)
+
+
+def _oracle_c12_g(ex, idx, op, out):
+    """the second discriminated position of a holder, when it was given"""
+    from . import universe as U
+    fam = ex.fam
+    if op.get("via") != "holder" or op["cls"] not in fam.classes:
+        return None
+    if out["s"] != "ok" and (out["s"] != "exc" or out["e"].get("field_name") != "g"):
+        return None
+    fields = fam.cls(op["cls"])["fields"]
+    if len(fields) < 2 or not isinstance(op["inp"], dict) or "g" not in op["inp"]:
+        return None
+    ann = fields[1]["t"][1]
+    d, base, doc = ann[2], ann[1][1], op["inp"]["g"]
+    defined = set(ex.sut.defined)
+    if base not in defined:
+        return None
+    m = c12_model(fam, defined, base, d, doc)
+    if out["s"] == "exc":
+        if m[0] == "obj":
+            names = []
+            e = out["e"]
+            while "ctx" in e:
+                e = e["ctx"]
+                names.append(e["type"])
+            if "SuitableVariantNotFoundError" in names or "MissingDiscriminatorError" in names:
+                return {"class": "registry-model-mismatch", "ref": {"model": list(m)}, "diff_at": "/g",
+                        "detail": f"second position: expected {m[1][1]} instance, got {names}"}
+        return None
+    if m[0] != "obj":
+        # the whole decode succeeded although the model expects this position to fail
+        if m[0] == "exc":
+            return {"class": "registry-model-mismatch", "ref": {"model": list(m)}, "diff_at": "/g",
+                    "detail": f"second position: expected {m[1]}, got a value"}
+        return None
+    got = out["v"]
+    got = got[2][1][1] if got[0] == "obj" and len(got[2]) > 1 else got
+    if not U.same(got, m[1]):
+        return {"class": "registry-model-mismatch", "ref": {"model": list(m)}, "diff_at": "/g",
+                "detail": f"second position: expected {m[1][1]} instance per registry model"}
+    return None
+
+
+def _oracle_c12_f(ex, idx, op, out):
     from . import universe as U
     fam = ex.fam
     defined = set(ex.sut.defined)
